@@ -176,12 +176,12 @@ def step (ds : DState) (line : String) : DState × String :=
   | cmd :: rest =>
     if cmd == "create" then
       match nat? rest "pub", nat? rest "priv", bool? rest "f1", bool? rest "f2", bool? rest "f2b", bool? rest "f3",
-            bool? rest "f11", bool? rest "f12", bool? rest "hl" with
-      | some pub, some priv, some f1, some f2, some f2b, some f3, some f11, some f12, some hl =>
-        let s0 : State := { cfg := ⟨f1, f2, f2b, f3, f11, f12, 10000⟩ }
+            bool? rest "f11", bool? rest "f12", bool? rest "hl", bool? rest "f13", bool? rest "fo1" with
+      | some pub, some priv, some f1, some f2, some f2b, some f3, some f11, some f12, some hl, some f13, some fo1 =>
+        let s0 : State := { cfg := ⟨f1, f2, f2b, f3, f11, f12, f13, fo1, 10000⟩ }
         let r := AddrLock.step s0 (.create pub priv)
         ({ s := r.1, hl := hl }, showRes r.2)
-      | _, _, _, _, _, _, _, _, _ => (ds, "bad-op")
+      | _, _, _, _, _, _, _, _, _, _, _ => (ds, "bad-op")
     else if cmd == "bufs" then
       match ds.s.mem with
       | none => (ds, "err nomanager")
